@@ -107,7 +107,7 @@ def gen_free(r):
 
 
 def gen(r, tier):
-    n = {"quick": 200, "search": 1000, "thorough": 2000}[tier]
+    n = {"quick": 200, "search": 1000, "thorough": 1500}[tier]
     cases = []
     nb = n // 8
     for _ in range(nb):
@@ -128,6 +128,8 @@ def corpus():
         ("sim", 5000, 1, (("W", 100 * MS, 120 * MS), ("adv", 300 * MS), ("w", 0, 1, T0 + 200 * MS), ("adv", 300 * MS))),
         ("block", 120 * MS, False, 0),
         ("block", 120 * MS, True, 0),
+        ("block", 0, True, 30 * MS),
+        ("block", 0, False, 0),
         # lease expiry of discovered participants (time_until_stale_participant reaches zero)
         ("free", ("P 0", "P 0", "net", "adv 99800000000", "adv 300000000")),
     ]
